@@ -81,10 +81,17 @@ def _products(d, S_T, s0, rng):
             add(f"Spot/Barrier[{bt.name}]", U.Spot, lambda bt=bt, lvl=lvl: P.Barrier(strike=k, payoff_type=P.PayoffType.CALL, barrier_type=bt, barrier=lvl))
         add("Spot/CallVector", U.Spot, lambda: P.Vanilla(strike=np.array(ks), payoff_type=P.PayoffType.CALL))
         add("LogSpot/Forward", U.LogSpot, lambda: P.Forward(strike=math.log(k)))
+        lv1 = -float(rng.choice([0.05, 0.2, 0.5, 0.9]))
+        add("DefaultTime/OnTheFly", lambda: U.DefaultTime(lv1), lambda: P.PayoffOnTheFly(lambda t: t))
     else:
         add("Performances/Rainbow", lambda: U.Performances(list(s0)), lambda: P.Rainbow(weights=list(np.linspace(1, 2, d) / np.sum(np.linspace(1, 2, d))), strike=1.0, payoff_type=P.PayoffType.CALL))
         thr = list(S_T * rng.uniform(0.7, 1.3, size=d))
         add("Indicators/OnTheFly", lambda: U.Indicators(thr), lambda: P.PayoffOnTheFly(lambda x: float(np.sum(x))))
+        # default times of several names: a name that defaulted on an earlier path must not be remembered on the next one
+        lv = [-float(rng.choice([0.05, 0.2, 0.5, 0.9])) for _ in range(d)]
+        for nth in range(1, d + 1):
+            add(f"NthDefaultTimes[{nth}]/OnTheFly", lambda nth=nth: U.NthDefaultTimes(lv, nth), lambda: P.PayoffOnTheFly(lambda t: t))
+        add("DefaultTimeNthUnderlying/OnTheFly", lambda: U.DefaultTimeNthUnderlying(lv, d), lambda: P.PayoffOnTheFly(lambda t: t))
     return out
 
 
